@@ -399,6 +399,18 @@ impl PeerDHTRecord {
 
     /// Verify the record signature
     pub fn verify_signature(&self) -> Result<()> {
+        // The record belongs to `user_id`, so the key that signed it must be the key
+        // that id is derived from - otherwise anyone can sign a record for any id.
+        if self.user_id != UserId::from_public_key(&self.public_key) {
+            return Err(P2PError::Security(
+                SecurityError::SignatureVerificationFailed(
+                    "User id does not match the record's public key"
+                        .to_string()
+                        .into(),
+                ),
+            ));
+        }
+
         let message = self.create_signable_message()?;
         let ok = crate::quantum_crypto::ml_dsa_verify(&self.public_key, &message, &self.signature)
             .map_err(|e| {
